@@ -149,6 +149,13 @@ func GenProject(g G, root string) *Project {
 			ext = "png"
 		}
 		m := &Module{ID: id, Kind: k, Version: 1, Path: fmt.Sprintf("src/assets/a%d.%s", id, ext)}
+		if k == "css" {
+			for _, bit := range []int{FeatEnum, FeatLegal, FeatWarn} {
+				if g.chance(25) {
+					m.Feat |= bit
+				}
+			}
+		}
 		p.Mods = append(p.Mods, m)
 	}
 	// packages
@@ -331,7 +338,12 @@ func (p *Project) RenderModule(m *Module) string {
 		var sb strings.Builder
 		for _, im := range m.Imports {
 			if p.Mods[im.Target].Kind == "css" && !p.Mods[im.Target].Deleted {
-				fmt.Fprintf(&sb, "@import %q;\n", p.spec(m, im))
+				if m.Feat&FeatEnum != 0 {
+					// the same file imported twice under different conditions
+					fmt.Fprintf(&sb, "@import %q screen;\n@import %q print;\n", p.spec(m, im), p.spec(m, im))
+				} else {
+					fmt.Fprintf(&sb, "@import %q;\n", p.spec(m, im))
+				}
 			}
 		}
 		if m.Feat&FeatLegal != 0 {
